@@ -110,7 +110,7 @@ func failureProblems(res *run.Result, exp *ref.Result, f *ref.Task, failProc str
 func c09(args []string) {
 	c := chk.New("C09", "fault_enumeration", args)
 	c.Build(false)
-	c.Rule("generated graphs x every chosen task as the failing one x failure kind {exit non-zero before/mid/after writing, killed by SIGKILL / SIGSEGV, the task's shell killed by SIGKILL / SIGTERM after writing, declared output not produced, output written under another name; Go-function variants; task cannot be formed: empty parameter value, missing tag, invalid output path (space, colon, empty)} while sibling tasks are running; oracle = exit status != 0, no completion report, no final path of the failing task exists, no start event of any transitive dependant; plus output paths that cannot be finalized: an absolute output area on another file system (symlink to /dev/shm), where the commands succeed but the rename out of the temp directory fails - the program must exit non-zero, must not report completion, and no downstream task may run; twelve tasks failing at the same moment with long error reports (each of them is judged); Go-function tasks also fail by panicking; a command line that is a list whose middle element fails after the outputs were written; a producer with only streamed outputs failing 0.5 s after it closed its streams. distinct_nontrivial = distinct (graph shape, failing task, failure kind) in which the failing command really ran (or, for unformable tasks, the workflow was started) and >= 1 sibling task executed")
+	c.Rule("generated graphs x every chosen task as the failing one x failure kind {exit non-zero before/mid/after writing, killed by SIGKILL / SIGSEGV, the task's shell killed by SIGKILL / SIGTERM after writing, declared output not produced, output written under another name; Go-function variants; task cannot be formed: empty parameter value, missing tag, invalid output path (space, colon, empty, letters / digits outside ASCII)} while sibling tasks are running; oracle = exit status != 0, no completion report, no final path of the failing task exists, no start event of any transitive dependant; plus output paths that cannot be finalized: an absolute output area on another file system (symlink to /dev/shm), where the commands succeed but the rename out of the temp directory fails - the program must exit non-zero, must not report completion, and no downstream task may run; twelve tasks failing at the same moment with long error reports (each of them is judged); Go-function tasks also fail by panicking, also those that write through task.OutIP(port).Write() to a port declared through SetOut only; a command line that is a list whose middle element fails after the outputs were written; a producer with only streamed outputs failing 0.5 s after it closed its streams. distinct_nontrivial = distinct (graph shape, failing task, failure kind) in which the failing command really ran (or, for unformable tasks, the workflow was started) and >= 1 sibling task executed")
 	c.Assume("siblings that were already running may finalize their own outputs (os.Exit does not wait) - legal", "orphaned sibling commands are killed by the runner after the workflow process has exited")
 	rng := c.Rand("c09")
 	type job struct {
@@ -168,7 +168,7 @@ func c09(args []string) {
 				cmdProcs = append(cmdProcs, p)
 			}
 		}
-		for k, kind := range []string{"empty-param", "missing-tag", "path-space", "path-colon", "path-empty", "path-name-too-long", "path-through-regular-file"} {
+		for k, kind := range []string{"empty-param", "missing-tag", "path-space", "path-colon", "path-empty", "path-accented-letter", "path-non-ascii-digit", "path-name-too-long", "path-through-regular-file"} {
 			p := cmdProcs[rng.Intn(len(cmdProcs))]
 			s2 := s.Clone()
 			p2 := s2.Proc(p.Name)
@@ -198,7 +198,7 @@ func c09(args []string) {
 					continue
 				}
 				p2.Cmd += " t=x:{t:" + inPort + ".nosuchtag}"
-			case "path-space", "path-colon", "path-empty", "path-name-too-long", "path-through-regular-file":
+			case "path-space", "path-colon", "path-empty", "path-accented-letter", "path-non-ascii-digit", "path-name-too-long", "path-through-regular-file":
 				if outPort == "" {
 					continue
 				}
@@ -212,6 +212,8 @@ func c09(args []string) {
 					continue
 				}
 				pat := map[string]string{"path-space": "bad name." + p.Name, "path-colon": "a:b." + p.Name, "path-empty": "",
+					// letters and digits outside the documented alphabet [0-9A-Za-z/._-] (harmless to the shell, so the command would succeed)
+					"path-accented-letter": "r\u00e9sultat_gr\u00f6\u00dfe." + p.Name, "path-non-ascii-digit": "run\u0663." + p.Name,
 					"path-name-too-long": strings.Repeat("n", 300) + "." + p.Name, "path-through-regular-file": aSource + "/below." + p.Name}[kind]
 				if inPort != "" && (kind == "path-name-too-long" || kind == "path-through-regular-file") {
 					pat += ".{i:" + inPort + "|basename}"
@@ -320,6 +322,30 @@ func c09(args []string) {
 			mode := []string{"exit-after-write", "exit-mid-write", "omit-output", "sigkill-shell"}[k%4]
 			bh := vproto.Behaviours{f.Key: {"fail": mode, "sleep": "120"}}
 			jobs = append(jobs, &job{s: s, exp: exp, f: f, mode: mode, bh: bh, cfg: Cfg{Buf: []int{1, 128}[k%2], Procs: 4, NoHooks: k%4 < 2}, idx: -1})
+		}
+	}
+	// a Go function that writes through the documented task.OutIP(port).Write() - one port named in the command pattern,
+	// one declared through SetOut only - and then reports a failure or panics
+	{
+		s := &spec.Spec{Name: "writeapifail", MaxTasks: 3, Sources: map[string]string{"m0.txt": "m0\n", "m1.txt": "m1\n"}}
+		in := []spec.PortDecl{{Name: "in"}}
+		s.Procs = append(s.Procs, &spec.Proc{Name: "src", Kind: spec.KFileSource, Files: []string{"m0.txt", "m1.txt"}},
+			&spec.Proc{Name: "W", Kind: spec.KGoFunc, WriteAPI: true, Cmd: spec.BuildCmd("W", in, []spec.PortDecl{{Name: "out"}}, nil, nil, nil),
+				Outs: []*spec.Out{{Port: "out", Pattern: "w/{i:in|basename}.w.out"}, {Port: "res", Pattern: "wdir/{i:in|basename}.w.res"}}},
+			&spec.Proc{Name: "D", Kind: spec.KCmd, Cmd: spec.BuildCmd("D", in, []spec.PortDecl{{Name: "out"}}, nil, nil, nil)},
+			&spec.Proc{Name: "E", Kind: spec.KCmd, Cmd: spec.BuildCmd("E", in, []spec.PortDecl{{Name: "out"}}, nil, nil, nil)})
+		s.Conns = append(s.Conns, &spec.Conn{From: "src.out", To: "W.in"}, &spec.Conn{From: "W.out", To: "D.in"}, &spec.Conn{From: "W.res", To: "E.in"})
+		exp := evalRef(s, nil)
+		if exp.Err != "" {
+			c.Broken("reference cannot evaluate the write-API shape: " + exp.Err)
+		}
+		for k := 0; k < c.Pick(4, 12); k++ {
+			f := exp.ByProc["W"][k%2]
+			if len(f.Outs) != 2 {
+				c.Broken(fmt.Sprintf("reference does not know the SetOut-only port of W: %v", f.Outs))
+			}
+			mode := []string{"exit-after-write", "panic-after-write"}[(k/2)%2]
+			jobs = append(jobs, &job{s: s, exp: exp, f: f, mode: mode, bh: vproto.Behaviours{f.Key: {"fail": mode}}, cfg: Cfg{Buf: []int{1, 128}[k%2], Procs: []int{2, 4}[k%2], NoHooks: k%4 >= 2}, idx: -1})
 		}
 	}
 	// a producer whose outputs are all streamed fails well after it closed its streams (it verifies something, waits
@@ -499,7 +525,7 @@ func classOf(mode string) string {
 		return "output-not-produced"
 	case "panic-mid-write", "panic-after-write":
 		return "go-function-panic"
-	case "empty-param", "missing-tag", "path-space", "path-colon", "path-empty":
+	case "empty-param", "missing-tag", "path-space", "path-colon", "path-empty", "path-accented-letter", "path-non-ascii-digit":
 		return "task-unformable"
 	case "path-name-too-long", "path-through-regular-file":
 		return "output-path-unusable"
